@@ -1069,6 +1069,9 @@ class HistogramBase(abc.ABC):
         elif np.isscalar(other):
             if not config.free_arithmetics and other < 0:
                 raise ValueError("Cannot have negative frequencies.")
+            if other == 0:
+                # Before anything is touched (the statistics would raise it afterwards)
+                raise ZeroDivisionError("Cannot divide a histogram by zero.")
             self._coerce_dtype(np.float64)
             self.frequencies = self.frequencies / other
             # Not `other**2`: a numpy scalar would be squared in its own (possibly narrow) type
